@@ -354,3 +354,100 @@ Proof.
     apply beq_false. intros X. rewrite <- (app_nil_r K_consStates) in X at 2.
     apply app_inv_head in X. discriminate.
 Qed.
+
+(** * what each iteration callback does with each kind of entry *)
+
+Ltac seq3 H := destruct H as [->|[->| ->]].
+
+Lemma f_client_wf s k v : wf_entry s k v ->
+  f_client (k, v) = Skip \/
+  exists name, noslash name /\ k = cs_key name /\ f_client (k, v) = Emit (name, v).
+Proof.
+  intros H. destruct H as [v|v|name v Hr|name v ty Hn Hd|name rev h v Hn Hrev Hh Hd
+                           |name rk v csv ty Hn Hl Hd Hm|fam a b n v Hf Ha Hb Hn Hv|a b n Ha Hb Hn|a b v|a b v];
+    try (left; reflexivity).
+  - right. exists name. split; [exact Hn|]. split; [reflexivity|].
+    unfold f_client, cs_key. change (has_prefix K_clients (client_prefix name ++ K_clientState)) with true.
+    cbn [negb]. rewrite splitn3_client by exact Hn. rewrite beq_refl. cbn [negb]. rewrite Hd. reflexivity.
+  - left. unfold f_client, cons_key. change (has_prefix K_clients (client_prefix name ++ cons_rkey rev h)) with true.
+    cbn [negb]. rewrite splitn3_client by exact Hn. reflexivity.
+  - left. unfold f_client. change (has_prefix K_clients (client_prefix name ++ rk)) with true.
+    cbn [negb]. rewrite splitn3_client by exact Hn.
+    destruct (beq rk K_clientState) eqn:E; [|reflexivity].
+    apply beq_spec in E. subst rk. rewrite meta_sel_client_state in Hm. discriminate.
+  - seq3 Hf; left; reflexivity.
+Qed.
+
+Lemma f_cons_wf s k v : wf_entry s k v ->
+  f_cons (k, v) = Skip \/
+  exists name rev h, noslash name /\ rev < two64 /\ h < two64 /\ k = cons_key name rev h /\
+                     f_cons (k, v) = Emit (name, rev, h, v).
+Proof.
+  intros H. destruct H as [v|v|name v Hr|name v ty Hn Hd|name rev h v Hn Hrev Hh Hd
+                           |name rk v csv ty Hn Hl Hd Hm|fam a b n v Hf Ha Hb Hn Hv|a b n Ha Hb Hn|a b v|a b v];
+    try (left; reflexivity).
+  - left. unfold f_cons, cs_key. change (has_prefix K_clients (client_prefix name ++ K_clientState)) with true.
+    cbn [negb]. rewrite splitn4_client by exact Hn.
+    rewrite cut_noslash by apply noslash_lit. reflexivity.
+  - right. exists name, rev, h. repeat (split; [assumption|]). split; [reflexivity|].
+    unfold f_cons, cons_key. change (has_prefix K_clients (client_prefix name ++ cons_rkey rev h)) with true.
+    cbn [negb]. rewrite splitn4_client by exact Hn. unfold cons_rkey.
+    rewrite cut_app by apply noslash_lit. rewrite beq_refl, length_height_bytes. cbn [Nat.eqb andb].
+    rewrite Hd, firstn_height_bytes, skipn_height_bytes, !be_val_be64 by assumption. reflexivity.
+  - left. unfold f_cons. change (has_prefix K_clients (client_prefix name ++ rk)) with true.
+    cbn [negb]. rewrite splitn4_client by exact Hn.
+    destruct (cut rk) as [x [rest|]] eqn:Ec; [|reflexivity].
+    rewrite (meta_not_cons ty rk x rest Hm Ec). reflexivity.
+  - seq3 Hf; left; reflexivity.
+Qed.
+
+Lemma f_relayer_wf s k v : wf_entry s k v ->
+  f_relayer (k, v) = Skip \/
+  exists name, k = relayer_key name /\ f_relayer (k, v) = Emit (name, v).
+Proof.
+  intros H. destruct H as [v|v|name v Hr|name v ty Hn Hd|name rev h v Hn Hrev Hh Hd
+                           |name rk v csv ty Hn Hl Hd Hm|fam a b n v Hf Ha Hb Hn Hv|a b n Ha Hb Hn|a b v|a b v];
+    try (left; reflexivity).
+  - right. exists name. split; [reflexivity|]. unfold f_relayer, relayer_key.
+    rewrite has_prefix_app. cbn [negb]. rewrite Hr. reflexivity.
+  - seq3 Hf; left; reflexivity.
+Qed.
+
+Lemma has_prefix_seq_key fam a b n : has_prefix fam (seq_key fam a b n) = true.
+Proof. rewrite seq_key_form. apply has_prefix_app. Qed.
+
+Lemma f_hash_wf s F k v : seq_fam F -> wf_entry s k v ->
+  f_hash F (k, v) = Skip \/
+  exists a b n, noslash a /\ noslash b /\ n < two64 /\ k = seq_key F a b n /\
+                (F = K_receipt -> v = receipt_value) /\ f_hash F (k, v) = Emit (a, b, n, v).
+Proof.
+  intros HF H. destruct H as [v|v|name v Hr|name v ty Hn Hd|name rev h v Hn Hrev Hh Hd
+                           |name rk v csv ty Hn Hl Hd Hm|fam a b n v Hf Ha Hb Hn Hv|a b n Ha Hb Hn|a b v|a b v];
+    try (seq3 HF; left; reflexivity).
+  assert (D : forall f, seq_fam f -> f_hash f (seq_key f a b n, v) = Emit (a, b, n, v)).
+  { intros f Hff. unfold f_hash. rewrite has_prefix_seq_key. cbn [negb].
+    rewrite split_seq_key by (first [assumption | apply seq_fam_noslash; assumption]).
+    cbn [length Nat.ltb Nat.leb last nth]. rewrite parse_uint_dec by exact Hn. reflexivity. }
+  seq3 HF; seq3 Hf; try (left; reflexivity);
+    right; exists a, b, n; repeat (split; [assumption|]); (split; [reflexivity|]);
+    (split; [first [exact Hv | intros X; exfalso; revert X; clear; intros X; apply beq_spec in X; vm_compute in X; discriminate]|]);
+    apply D; unfold seq_fam; tauto.
+Qed.
+
+Definition send_fam (f : bytes) : Prop := f = K_nextsend \/ f = K_nextrecv \/ f = K_nextack.
+
+Lemma f_seq_wf s F k v : send_fam F -> wf_entry s k v ->
+  f_seq F (k, v) = Skip \/
+  exists a b n, noslash a /\ noslash b /\ n < two64 /\ F = K_nextsend /\ k = next_send_key a b /\
+                v = be64 n /\ f_seq F (k, v) = Emit (a, b, n).
+Proof.
+  intros HF H. destruct H as [v|v|name v Hr|name v ty Hn Hd|name rev h v Hn Hrev Hh Hd
+                           |name rk v csv ty Hn Hl Hd Hm|fam a b n v Hf Ha Hb Hn Hv|a b n Ha Hb Hn|a b v|a b v];
+    try (seq3 HF; left; reflexivity).
+  - seq3 HF; seq3 Hf; left; reflexivity.
+  - seq3 HF; try (left; reflexivity).
+    right. exists a, b, n. repeat (split; [assumption|]). repeat (split; [reflexivity|]).
+    unfold f_seq, next_send_key. change (has_prefix K_nextsend (path [K_nextsend; a; b])) with true.
+    cbn [negb]. rewrite split_pair_key by (try apply noslash_of_string_consts; assumption).
+    cbn [length Nat.ltb Nat.leb nth]. rewrite be_to_u64_be64 by exact Hn. reflexivity.
+Qed.
